@@ -163,11 +163,26 @@ type lockSess struct {
 	insts map[int]*lockInst
 }
 
+// lockDirName: the directories come in groups of three related paths — a root ("d"), a
+// directory nested in it ("d/v") and a sibling whose name has the root's name as a prefix
+// ("d-v") — so that Dir / ValueDir pairs cover nested and common-prefix layouts as well as
+// unrelated ones ("d" with "e/v").
+func lockDirName(i int) string {
+	root := string(rune('d' + i/3))
+	switch i % 3 {
+	case 1:
+		return root + "/v"
+	case 2:
+		return root + "-v"
+	}
+	return root
+}
+
 func (s *lockSess) path(p int) string {
 	if p < s.nd {
-		return filepath.Join(s.base, fmt.Sprintf("d%d", p))
+		return filepath.Join(s.base, lockDirName(p))
 	}
-	return filepath.Join(s.base, fmt.Sprintf("a%d", p%s.nd))
+	return filepath.Join(s.base, fmt.Sprintf("a%d", p%s.nd)) // symlink: a second name
 }
 
 // endSession closes every instance (children stay alive for the next session: starting a
@@ -200,10 +215,10 @@ func (s *lockSess) reset(nd int) error {
 	s.nd = nd
 	s.base = scratchDir()
 	for i := 0; i < nd; i++ {
-		if err := os.MkdirAll(filepath.Join(s.base, fmt.Sprintf("d%d", i)), 0o755); err != nil {
+		if err := os.MkdirAll(filepath.Join(s.base, lockDirName(i)), 0o755); err != nil {
 			return err
 		}
-		if err := os.Symlink(fmt.Sprintf("d%d", i), filepath.Join(s.base, fmt.Sprintf("a%d", i))); err != nil {
+		if err := os.Symlink(lockDirName(i), filepath.Join(s.base, fmt.Sprintf("a%d", i))); err != nil {
 			return err
 		}
 	}
@@ -433,28 +448,40 @@ func lockFirstWords(s string, n int) string {
 func genLock(rng *rand.Rand, n int, st *Stats) []string {
 	var ops []string
 	for c := 0; c < n; c++ {
-		nd := 3
+		nd := 6 // two groups: d, d/v, d-v and e, e/v, e-v
 		ops = append(ops, fmt.Sprintf("reset nd=%d", nd))
 		nextID := 1
 		var attempted []int
 		type dv struct{ d, v int }
 		var created []dv // Dir/ValueDir pairs of earlier read-write opens: a database may exist there
+		var usedV []int  // value directories of earlier opens: later opens share them under another Dir
 		nops := 8 + rng.Intn(14)
 		for i := 0; i < nops; i++ {
 			r := rng.Intn(100)
 			switch {
 			case r < 58 || len(attempted) == 0:
-				d := rng.Intn(nd)
-				if rng.Intn(6) == 0 {
+				g := rng.Intn(nd / 3)
+				d := 3*g + pick(rng, 0, 0, 0, 1, 2)
+				v := d
+				switch x := rng.Intn(20); {
+				case x < 7: // Dir == ValueDir
+				case x < 13: // related: nested in / common-prefix sibling of / parent of Dir
+					v = 3*g + rng.Intn(3)
+				case x < 17 && len(usedV) > 0: // a value directory somebody else uses, under another Dir
+					v = usedV[rng.Intn(len(usedV))]
+					if rng.Intn(2) == 0 {
+						d = rng.Intn(nd)
+					}
+				default:
+					v = rng.Intn(nd)
+				}
+				if rng.Intn(8) == 0 {
 					d += nd // second name of the directory
 				}
-				v := d
-				if rng.Intn(2) == 0 {
-					v = rng.Intn(2 * nd)
-					if rng.Intn(3) != 0 {
-						v %= nd
-					}
+				if rng.Intn(8) == 0 {
+					v = (v + nd) % (2 * nd)
 				}
+				usedV = append(usedV, v%nd)
 				ro := rng.Intn(5) < 2
 				if ro && len(created) > 0 && rng.Intn(4) != 0 {
 					c := created[rng.Intn(len(created))]
